@@ -1,10 +1,461 @@
-import RTV.Model.TimexCfg
-/-! # C14 — TIMEX strings survive parsing and formatting unchanged (work in progress) -/
+import RTV.Lemmas.Timex
+/-!
+# C14 — TIMEX strings survive parsing and formatting unchanged
+
+Theorems about `RTV.Model.Timex` (mirrors `datatypes_timex_expression`: timex.py, time.py, timex_parsing.py,
+timex_regex.py, timex_format.py, timex_inference.py). The grammar is the set of strings the `TimexRegex` patterns
+accept with ASCII digits: a well-formed TIMEX is a value of `WF` (one constructor per pattern / combination, the
+digits are parameters) and `render` writes it down.  The theorems hold for **every** configuration that satisfies
+`CfgOK` (the 18 patterns as they stood when the proofs were made, a digit table that knows the ASCII digits) and
+`genCfg_ok` shows that the configuration regenerated from the working tree is one.
+-/
 namespace RTV.Timex
+open RTV.Py RTV.Cal
+set_option linter.unusedSimpArgs false
+set_option linter.unusedVariables false
 
 /-- The patterns, constants and digit table regenerated from the working tree are the ones the theorems are
-about. -/
+about (an edit of `timex_regex.py`, `timex_creator.py`, `timex_constants.py` breaks this obligation). -/
 theorem genCfg_ok : CfgOK genCfg := by
   constructor <;> decide
+
+/-! ## `from_date`, `from_date_time`, `from_time` are canonical -/
+
+def d2 (n : Nat) : Str := [48 + n / 10, 48 + n % 10]
+def d4 (n : Nat) : Str := [48 + n / 1000, 48 + n / 100 % 10, 48 + n / 10 % 10, 48 + n % 10]
+
+/-- `YYYY-MM-DD` -/
+def isoDateStr (d : Date) : Str := d4 d.y ++ 45 :: d2 d.m ++ 45 :: d2 d.d
+
+/-- `Thh`, `Thh:mm` or `Thh:mm:ss`: trailing zero parts are dropped -/
+def isoTimeStr (h m s : Nat) : Str :=
+  if m = 0 ∧ s = 0 then 84 :: d2 h
+  else if s = 0 then 84 :: d2 h ++ 58 :: d2 m
+  else 84 :: d2 h ++ 58 :: d2 m ++ 58 :: d2 s
+
+example : isoDateStr ⟨2020, 2, 29⟩ = [50, 48, 50, 48, 45, 48, 50, 45, 50, 57] ∧
+    isoTimeStr 5 30 0 = [84, 48, 53, 58, 51, 48] := by decide
+
+theorem valid_bounds (d : Date) (hv : d.valid = true) : d.y < 10000 ∧ d.m < 100 ∧ d.d < 100 := by
+  rw [valid_iff] at hv
+  obtain ⟨_, h2, _, h4, _, h6⟩ := hv
+  have : daysInMonth d.y d.m ≤ 31 := by
+    unfold daysInMonth; split <;> try split
+    all_goals omega
+  omega
+
+/-- C14 **from_date_canonical** — for every valid date 0001-01-01 … 9999-12-31, `Timex.from_date(d).timex_value()`
+is `YYYY-MM-DD`. -/
+theorem from_date_canonical (d : Date) (hv : d.valid = true) :
+    formatT (Timex.fromDate d) = .ok (isoDateStr d) := by
+  obtain ⟨hy, hm, hd⟩ := valid_bounds d hv
+  simp [formatT, formatFuel, Timex.fromDate, infer, isDate, isDateRange, isDuration, isTime, isDefinite, truthyO,
+    truthyS, formatDate, andChainNotNone, fixed4 d.y hy, fixed2 d.m hm, fixed2 d.d hd, isoDateStr, d2, d4,
+    bind, Except.bind, pure, Except.pure]
+
+theorem fixed2_zero : fixedFormat (some (.int 0)) 2 = [48, 48] := by decide
+
+/-- C14 **from_time_canonical** — for every `h < 100`, `m, s < 100` (in particular all clock times)
+`Timex.from_time(Time(h, m, s)).timex_value()` is `Thh[:mm[:ss]]`. -/
+theorem from_time_canonical (h m s : Nat) (hh : h < 100) (hm : m < 100) (hs : s < 100) :
+    formatT (Timex.fromTime ⟨.int h, .int m, .int s⟩) = .ok (isoTimeStr h m s) := by
+  by_cases h1 : m = 0 <;> by_cases h2 : s = 0 <;>
+    simp [formatT, formatFuel, Timex.fromTime, Timex.initTime, Timex.setHour, Timex.setMinute, Timex.setSecond, infer,
+      isDate, isDateRange, isDuration, isTime, isDefinite, truthyO, truthyS, formatTime, eq0, Num.eqInt, Num.scaled,
+      pow10, Timex.hour, Timex.minute, Timex.second, fixed2 h hh, fixed2 m hm, fixed2 s hs, isoTimeStr, d2,
+      bind, Except.bind, pure, Except.pure, h1, h2, fixed2_zero]
+
+/-- C14 **from_date_time_canonical** — for every valid date and clock time,
+`Timex.from_date_time(dt).timex_value()` is `YYYY-MM-DD` followed by `Thh[:mm[:ss]]`. -/
+theorem from_date_time_canonical (d : Date) (hv : d.valid = true) (h m s : Nat) (hh : h < 24) (hm : m < 60)
+    (hs : s < 60) :
+    formatT (Timex.fromDateTime d h m s) = .ok (isoDateStr d ++ isoTimeStr h m s) := by
+  obtain ⟨hy, hmo, hd⟩ := valid_bounds d hv
+  by_cases h1 : m = 0 <;> by_cases h2 : s = 0 <;>
+    simp [formatT, formatFuel, Timex.fromDateTime, Timex.fromDate, Timex.initTime, Timex.setHour, Timex.setMinute,
+      Timex.setSecond, infer, isDate, isDateRange, isDuration, isTime, isDefinite, truthyO, truthyS, formatTime,
+      formatDate, andChainNotNone, eq0, Num.eqInt, Num.scaled, pow10, Timex.hour, Timex.minute, Timex.second,
+      fixed4 d.y hy, fixed2 d.m hmo, fixed2 d.d hd, fixed2 h (by omega), fixed2 m (by omega), fixed2 s (by omega),
+      isoTimeStr, isoDateStr, d2, d4, bind, Except.bind, pure, Except.pure, h1, h2, fixed2_zero]
+
+example : (⟨2020, 2, 29⟩ : Date).valid = true := by decide
+
+/-! ## the grammar -/
+
+abbrev Dg := Fin 10
+/-- the ASCII digit character of a digit -/
+def dch (d : Dg) : Nat := 48 + d.val
+
+inductive Season | SP | SU | FA | WI
+inductive Pod | DT | NI | MO | AF | EV
+def seasonStr : Season → Str
+  | .SP => [83, 80] | .SU => [83, 85] | .FA => [70, 65] | .WI => [87, 73]
+def podStr : Pod → Str
+  | .DT => [68, 84] | .NI => [78, 73] | .MO => [77, 79] | .AF => [65, 70] | .EV => [69, 86]
+
+/-- the twelve date patterns, digits as parameters -/
+inductive DateForm
+  | date (y1 y2 y3 y4 m1 m2 d1 d2 : Dg)
+  | weekday (w : Dg)
+  | openyear (m1 m2 d1 d2 : Dg)
+  | year (y1 y2 y3 y4 : Dg)
+  | yearmonth (y1 y2 y3 y4 m1 m2 : Dg)
+  | season (s : Season)
+  | yearseason (y1 y2 y3 y4 : Dg) (s : Season)
+  | week (y1 y2 y3 y4 w1 w2 : Dg)
+  | weekend (y1 y2 y3 y4 w1 w2 : Dg)
+  | month (m1 m2 : Dg)
+  | monthweek (m1 m2 w1 w2 : Dg)
+  | monthweekday (m1 m2 w d : Dg)
+
+/-- the four time patterns -/
+inductive TimeForm
+  | h (h1 h2 : Dg)
+  | hm (h1 h2 m1 m2 : Dg)
+  | hms (h1 h2 m1 m2 s1 s2 : Dg)
+  | pod (p : Pod)
+
+def renderD : DateForm → Str
+  | .date y1 y2 y3 y4 m1 m2 d1 d2 => [dch y1, dch y2, dch y3, dch y4, 45, dch m1, dch m2, 45, dch d1, dch d2]
+  | .weekday w => [88, 88, 88, 88, 45, 87, 88, 88, 45, dch w]
+  | .openyear m1 m2 d1 d2 => [88, 88, 88, 88, 45, dch m1, dch m2, 45, dch d1, dch d2]
+  | .year y1 y2 y3 y4 => [dch y1, dch y2, dch y3, dch y4]
+  | .yearmonth y1 y2 y3 y4 m1 m2 => [dch y1, dch y2, dch y3, dch y4, 45, dch m1, dch m2]
+  | .season s => seasonStr s
+  | .yearseason y1 y2 y3 y4 s => [dch y1, dch y2, dch y3, dch y4, 45] ++ seasonStr s
+  | .week y1 y2 y3 y4 w1 w2 => [dch y1, dch y2, dch y3, dch y4, 45, 87, dch w1, dch w2]
+  | .weekend y1 y2 y3 y4 w1 w2 => [dch y1, dch y2, dch y3, dch y4, 45, 87, dch w1, dch w2, 45, 87, 69]
+  | .month m1 m2 => [88, 88, 88, 88, 45, dch m1, dch m2]
+  | .monthweek m1 m2 w1 w2 => [88, 88, 88, 88, 45, dch m1, dch m2, 45, 87, dch w1, dch w2]
+  | .monthweekday m1 m2 w d => [88, 88, 88, 88, 45, dch m1, dch m2, 45, 87, 88, 88, 45, dch w, 45, dch d]
+
+def renderT : TimeForm → Str
+  | .h h1 h2 => [84, dch h1, dch h2]
+  | .hm h1 h2 m1 m2 => [84, dch h1, dch h2, 58, dch m1, dch m2]
+  | .hms h1 h2 m1 m2 s1 s2 => [84, dch h1, dch h2, 58, dch m1, dch m2, 58, dch s1, dch s2]
+  | .pod p => 84 :: podStr p
+
+/-- a well-formed TIMEX of the families C14 names: a date form, a time form, a date + time combination, or
+`PRESENT_REF` (durations: see `duration_int_roundtrip`) -/
+inductive WF
+  | d (f : DateForm)
+  | t (g : TimeForm)
+  | dt (f : DateForm) (g : TimeForm)
+  | present
+
+def render : WF → Str
+  | .d f => renderD f
+  | .t g => renderT g
+  | .dt f g => renderD f ++ renderT g
+  | .present => sPresentRef
+
+/-- canonical form of a time: trailing `:00` parts are not printed (`T05:00` and `T05` have the same fields) -/
+def normT : TimeForm → TimeForm
+  | .hm h1 h2 m1 m2 => if m1 = 0 ∧ m2 = 0 then .h h1 h2 else .hm h1 h2 m1 m2
+  | .hms h1 h2 m1 m2 s1 s2 =>
+    if s1 = 0 ∧ s2 = 0 then (if m1 = 0 ∧ m2 = 0 then .h h1 h2 else .hm h1 h2 m1 m2) else .hms h1 h2 m1 m2 s1 s2
+  | g => g
+
+def norm : WF → WF
+  | .t g => .t (normT g)
+  | .dt f g => .dt f (normT g)
+  | w => w
+
+/-- in-range fields, as far as the formatter depends on them: a year / open month that stands alone is not zero,
+a weekday is not zero.  Date + time combinations (`WF.dt`) are outside the theorems below — they are covered
+by the correspondence and the property oracles of the check only. -/
+def InRange : WF → Prop
+  | .d (.year y1 y2 y3 y4) => ¬ (y1.val = 0 ∧ y2.val = 0 ∧ y3.val = 0 ∧ y4.val = 0)
+  | .d (.month m1 m2) => ¬ (m1.val = 0 ∧ m2.val = 0)
+  | .d (.weekday w) => w.val ≠ 0
+  | .dt _ _ => False
+  | _ => True
+
+section
+
+theorem dv_dch (cfg : Cfg) (hc : CfgOK cfg) (d : Dg) : cfg.dv (dch d) = some d.val := hc.dv.1 d.val d.isLt
+theorem isDig_dch (cfg : Cfg) (hc : CfgOK cfg) (d : Dg) : isDig cfg.dv (dch d) = true := by
+  simp [isDig, dv_dch cfg hc d]
+theorem dch_ne (d : Dg) (c : Nat) (h : c < 48 ∨ 57 < c) : (dch d = c) = False := by
+  have := d.isLt
+  unfold dch; simp; omega
+theorem ne_dch (d : Dg) (c : Nat) (h : c < 48 ∨ 57 < c) : (c = dch d) = False := by
+  have := d.isLt
+  unfold dch; simp; omega
+
+theorem fixed2_dg (a b : Dg) : fixedFormat (some (.int ((0 * 10 + a.val) * 10 + b.val : Nat))) 2 = [dch a, dch b] := by
+  have := a.isLt; have := b.isLt
+  have e1 : ((0 * 10 + a.val) * 10 + b.val) / 10 = a.val := by omega
+  have e2 : ((0 * 10 + a.val) * 10 + b.val) % 10 = b.val := by omega
+  rw [fixed2 _ (by omega), e1, e2]; rfl
+theorem fixed4_dg (a b c d : Dg) :
+    fixedFormat (some (.int ((((0 * 10 + a.val) * 10 + b.val) * 10 + c.val) * 10 + d.val : Nat))) 4 =
+      [dch a, dch b, dch c, dch d] := by
+  have := a.isLt; have := b.isLt; have := c.isLt; have := d.isLt
+  have e1 : ((((0 * 10 + a.val) * 10 + b.val) * 10 + c.val) * 10 + d.val) / 1000 = a.val := by omega
+  have e2 : ((((0 * 10 + a.val) * 10 + b.val) * 10 + c.val) * 10 + d.val) / 100 % 10 = b.val := by omega
+  have e3 : ((((0 * 10 + a.val) * 10 + b.val) * 10 + c.val) * 10 + d.val) / 10 % 10 = c.val := by omega
+  have e4 : ((((0 * 10 + a.val) * 10 + b.val) * 10 + c.val) * 10 + d.val) % 10 = d.val := by omega
+  rw [fixed4 _ (by omega), e1, e2, e3, e4]; rfl
+theorem str1_dg (a : Dg) : optStr (some (.int ((0 * 10 + a.val : Nat)))) = [dch a] := by
+  have := a.isLt
+  have e : 0 * 10 + a.val = a.val := by omega
+  simp only [optStr, Num.str]; rw [istr_nat, nstr_lt10 _ (by omega), e]; rfl
+
+/-- evaluation of parse ∘ render and of format on the resulting fields -/
+theorem parse_renderD (cfg : Cfg) (hc : CfgOK cfg) (f : DateForm) :
+    parse cfg (renderD f) = Timex.assign cfg.dv {} (extract cfg.dv cfg.date (renderD f)) := by
+  have h88 := hc.dv.2 88 (by decide)
+  cases f <;> (try rename_i s) <;> (try cases s) <;>
+    simp [parse, parseInto, extractDateTime, renderD, sPresentRef, indexOf, dch_ne, ne_dch, seasonStr, podStr]
+
+theorem fixed2_dg' (a b : Dg) : fixedFormat (some (.int ((a.val : Int) * 10 + (b.val : Int)))) 2 = [dch a, dch b] := by
+  have e : ((a.val : Int) * 10 + (b.val : Int)) = (((0 * 10 + a.val) * 10 + b.val : Nat) : Int) := by omega
+  rw [e, fixed2_dg]
+theorem fixed4_dg' (a b c d : Dg) :
+    fixedFormat (some (.int ((((a.val : Int) * 10 + (b.val : Int)) * 10 + (c.val : Int)) * 10 + (d.val : Int)))) 4 =
+      [dch a, dch b, dch c, dch d] := by
+  have e : ((((a.val : Int) * 10 + (b.val : Int)) * 10 + (c.val : Int)) * 10 + (d.val : Int)) =
+      (((((0 * 10 + a.val) * 10 + b.val) * 10 + c.val) * 10 + d.val : Nat) : Int) := by omega
+  rw [e, fixed4_dg]
+theorem str1_dg' (a : Dg) : optStr (some (.int (a.val : Int))) = [dch a] := by
+  have e : (a.val : Int) = ((0 * 10 + a.val : Nat) : Int) := by omega
+  rw [e, str1_dg]
+
+theorem format_parse_D (cfg : Cfg) (hc : CfgOK cfg) (f : DateForm) (hr : InRange (.d f)) :
+    formatT (parse cfg (renderD f)) = .ok (renderD f) := by
+  have h88 : isDig cfg.dv 88 = false := by simp [isDig, hc.dv.2 88 (by decide)]
+  have h45 : isDig cfg.dv 45 = false := by simp [isDig, hc.dv.2 45 (by decide)]
+  have h87 : isDig cfg.dv 87 = false := by simp [isDig, hc.dv.2 87 (by decide)]
+  have h83 : isDig cfg.dv 83 = false := by simp [isDig, hc.dv.2 83 (by decide)]
+  have h70 : isDig cfg.dv 70 = false := by simp [isDig, hc.dv.2 70 (by decide)]
+  rw [parse_renderD cfg hc, hc.date]
+  cases f
+  case season s => cases s <;> simp [extract, stdDate, xxxx, seasons, firstSome, matchItems, renderD, startsWith,
+      seasonStr, Timex.assign, h88, h45, h87, h83, h70, formatT, formatFuel, infer, isDate, isDateRange, isDuration,
+      isTime, isDefinite, truthyO, truthyS, formatDateRange, bind, Except.bind, pure, Except.pure]
+  case yearseason y1 y2 y3 y4 s => cases s <;> simp [extract, stdDate, xxxx, seasons, firstSome, matchItems, renderD,
+      isDig_dch cfg hc, startsWith, dch_ne, ne_dch, seasonStr, Timex.assign, parseNatDv, dv_dch cfg hc, h88, h45, h87,
+      h83, h70, formatT, formatFuel, infer, isDate, isDateRange, isDuration, isTime, isDefinite, truthyO, truthyS,
+      Num.truthy, formatDateRange, bind, Except.bind, pure, Except.pure, fixed4_dg']
+  all_goals (try simp only [InRange] at hr)
+  all_goals
+    simp [extract, stdDate, xxxx, seasons, firstSome, matchItems, renderD, isDig_dch cfg hc, startsWith, dch_ne, ne_dch,
+      seasonStr, Timex.assign, parseNatDv, dv_dch cfg hc, h88, h45, h87, h83, h70,
+      formatT, formatFuel, infer, isDate, isDateRange, isDuration, isTime, isDefinite, truthyO, truthyS, Num.truthy,
+      formatDate, formatDateRange, andChainNotNone, sXXXX, sWXX, bind, Except.bind, pure, Except.pure,
+      fixed2_dg', fixed4_dg', str1_dg', hr]
+  all_goals omega
+
+theorem parse_renderT (cfg : Cfg) (hc : CfgOK cfg) (g : TimeForm) :
+    parse cfg (renderT g) = Timex.assign cfg.dv {} (dictMerge (extract cfg.dv cfg.date []) (extract cfg.dv cfg.time (renderT g))) := by
+  cases g <;> (try rename_i p; cases p) <;>
+    simp [parse, parseInto, extractDateTime, renderT, sPresentRef, indexOf, dch_ne, ne_dch, podStr]
+
+theorem extract_date_nil (cfg : Cfg) (hc : CfgOK cfg) : extract cfg.dv cfg.date [] = [] := by
+  rw [hc.date]
+  simp [extract, stdDate, xxxx, seasons, firstSome, matchItems, startsWith]
+
+theorem format_parse_T (cfg : Cfg) (hc : CfgOK cfg) (g : TimeForm) :
+    formatT (parse cfg (renderT g)) = .ok (renderT (normT g)) := by
+  have h58 : isDig cfg.dv 58 = false := by simp [isDig, hc.dv.2 58 (by decide)]
+  rw [parse_renderT cfg hc, extract_date_nil cfg hc, hc.time]
+  cases g
+  case pod p => cases p <;> simp [extract, stdTime, partsOfDay, firstSome, matchItems, renderT, startsWith, podStr,
+      dictMerge, dictSet, Timex.assign, formatT, formatFuel, infer, isDate, isDateRange, isDuration, isTime,
+      isDefinite, truthyO, truthyS, formatTimeRange, normT, bind, Except.bind, pure, Except.pure, isDig, hc.dv.2]
+  case h h1 h2 =>
+    simp [extract, stdTime, firstSome, matchItems, renderT, isDig_dch cfg hc, dictMerge, dictSet, Timex.assign,
+      parseNatDv, dv_dch cfg hc, Timex.setHour, formatT, formatFuel, infer, isDate, isDateRange, isDuration, isTime,
+      isDefinite, truthyO, truthyS, formatTime, eq0, Num.eqInt, Num.scaled, pow10, Timex.hour, Timex.minute,
+      Timex.second, normT, bind, Except.bind, pure, Except.pure, fixed2_dg']
+  case hm h1 h2 m1 m2 =>
+    by_cases hz : m1.val = 0 ∧ m2.val = 0
+    · have e1 : m1 = 0 := Fin.ext hz.1
+      have e2 : m2 = 0 := Fin.ext hz.2
+      subst e1 e2
+      simp [extract, stdTime, firstSome, matchItems, renderT, isDig_dch cfg hc, dictMerge, dictSet, Timex.assign,
+        parseNatDv, dv_dch cfg hc, Timex.setHour, Timex.setMinute, formatT, formatFuel, infer, isDate, isDateRange,
+        isDuration, isTime, isDefinite, truthyO, truthyS, formatTime, eq0, Num.eqInt, Num.scaled, pow10, Timex.hour,
+        Timex.minute, Timex.second, normT, bind, Except.bind, pure, Except.pure, fixed2_dg', h58, dch_ne, ne_dch]
+    · have hz' : ¬ (m1 = 0 ∧ m2 = 0) := fun h => hz ⟨by simp [h.1], by simp [h.2]⟩
+      have hne : ¬ ((m1.val : Int) * 10 + (m2.val : Int) = 0) := by omega
+      simp [extract, stdTime, firstSome, matchItems, renderT, isDig_dch cfg hc, dictMerge, dictSet, Timex.assign,
+        parseNatDv, dv_dch cfg hc, Timex.setHour, Timex.setMinute, formatT, formatFuel, infer, isDate, isDateRange,
+        isDuration, isTime, isDefinite, truthyO, truthyS, formatTime, eq0, Num.eqInt, Num.scaled, pow10, Timex.hour,
+        Timex.minute, Timex.second, normT, bind, Except.bind, pure, Except.pure, fixed2_dg', h58, dch_ne, ne_dch,
+        hz', hne]
+  case hms h1 h2 m1 m2 s1 s2 =>
+    by_cases hs : s1.val = 0 ∧ s2.val = 0
+    · have e1 : s1 = 0 := Fin.ext hs.1
+      have e2 : s2 = 0 := Fin.ext hs.2
+      subst e1 e2
+      by_cases hz : m1.val = 0 ∧ m2.val = 0
+      · have e1 : m1 = 0 := Fin.ext hz.1
+        have e2 : m2 = 0 := Fin.ext hz.2
+        subst e1 e2
+        simp [extract, stdTime, firstSome, matchItems, renderT, isDig_dch cfg hc, dictMerge, dictSet, Timex.assign,
+        parseNatDv, dv_dch cfg hc, Timex.setHour, Timex.setMinute, Timex.setSecond, formatT, formatFuel, infer, isDate,
+        isDateRange, isDuration, isTime, isDefinite, truthyO, truthyS, formatTime, eq0, Num.eqInt, Num.scaled, pow10,
+        Timex.hour, Timex.minute, Timex.second, normT, bind, Except.bind, pure, Except.pure, fixed2_dg', h58, dch_ne,
+        ne_dch]
+      · have hz' : ¬ (m1 = 0 ∧ m2 = 0) := fun h => hz ⟨by simp [h.1], by simp [h.2]⟩
+        have hne : ¬ ((m1.val : Int) * 10 + (m2.val : Int) = 0) := by omega
+        simp [extract, stdTime, firstSome, matchItems, renderT, isDig_dch cfg hc, dictMerge, dictSet, Timex.assign,
+        parseNatDv, dv_dch cfg hc, Timex.setHour, Timex.setMinute, Timex.setSecond, formatT, formatFuel, infer, isDate,
+        isDateRange, isDuration, isTime, isDefinite, truthyO, truthyS, formatTime, eq0, Num.eqInt, Num.scaled, pow10,
+        Timex.hour, Timex.minute, Timex.second, normT, bind, Except.bind, pure, Except.pure, fixed2_dg', h58, dch_ne,
+        ne_dch, hz', hne]
+    · have hs' : ¬ (s1 = 0 ∧ s2 = 0) := fun h => hs ⟨by simp [h.1], by simp [h.2]⟩
+      have hne : ¬ ((s1.val : Int) * 10 + (s2.val : Int) = 0) := by omega
+      simp [extract, stdTime, firstSome, matchItems, renderT, isDig_dch cfg hc, dictMerge, dictSet, Timex.assign,
+        parseNatDv, dv_dch cfg hc, Timex.setHour, Timex.setMinute, Timex.setSecond, formatT, formatFuel, infer, isDate,
+        isDateRange, isDuration, isTime, isDefinite, truthyO, truthyS, formatTime, eq0, Num.eqInt, Num.scaled, pow10,
+        Timex.hour, Timex.minute, Timex.second, normT, bind, Except.bind, pure, Except.pure, fixed2_dg', h58, dch_ne,
+        ne_dch, hs', hne]
+
+/-- a time and its canonical form have the same field values (`T05:00` ≡ `T05`: `hour = 5` makes
+`minute = second = 0`) -/
+theorem parse_normT (cfg : Cfg) (hc : CfgOK cfg) (g : TimeForm) :
+    parse cfg (renderT (normT g)) = parse cfg (renderT g) := by
+  have h58 : isDig cfg.dv 58 = false := by simp [isDig, hc.dv.2 58 (by decide)]
+  rw [parse_renderT cfg hc, parse_renderT cfg hc, extract_date_nil cfg hc, hc.time]
+  cases g
+  case pod p => rfl
+  case h h1 h2 => rfl
+  case hm h1 h2 m1 m2 =>
+    by_cases hz : m1.val = 0 ∧ m2.val = 0
+    · have e1 : m1 = 0 := Fin.ext hz.1
+      have e2 : m2 = 0 := Fin.ext hz.2
+      subst e1 e2
+      simp [extract, stdTime, firstSome, matchItems, renderT, isDig_dch cfg hc, dictMerge, dictSet, Timex.assign,
+        parseNatDv, dv_dch cfg hc, Timex.setHour, Timex.setMinute, Timex.setSecond, normT, h58, dch_ne, ne_dch]
+    · have hz' : ¬ (m1 = 0 ∧ m2 = 0) := fun h => hz ⟨by simp [h.1], by simp [h.2]⟩
+      simp [normT, hz']
+  case hms h1 h2 m1 m2 s1 s2 =>
+    by_cases hs : s1.val = 0 ∧ s2.val = 0
+    · have e1 : s1 = 0 := Fin.ext hs.1
+      have e2 : s2 = 0 := Fin.ext hs.2
+      subst e1 e2
+      by_cases hz : m1.val = 0 ∧ m2.val = 0
+      · have e1 : m1 = 0 := Fin.ext hz.1
+        have e2 : m2 = 0 := Fin.ext hz.2
+        subst e1 e2
+        simp [extract, stdTime, firstSome, matchItems, renderT, isDig_dch cfg hc, dictMerge, dictSet, Timex.assign,
+        parseNatDv, dv_dch cfg hc, Timex.setHour, Timex.setMinute, Timex.setSecond, normT, h58, dch_ne, ne_dch]
+      · have hz' : ¬ (m1 = 0 ∧ m2 = 0) := fun h => hz ⟨by simp [h.1], by simp [h.2]⟩
+        simp [extract, stdTime, firstSome, matchItems, renderT, isDig_dch cfg hc, dictMerge, dictSet, Timex.assign,
+        parseNatDv, dv_dch cfg hc, Timex.setHour, Timex.setMinute, Timex.setSecond, normT, h58, dch_ne, ne_dch, hz']
+    · have hs' : ¬ (s1 = 0 ∧ s2 = 0) := fun h => hs ⟨by simp [h.1], by simp [h.2]⟩
+      simp [normT, hs']
+
+theorem normT_idem (g : TimeForm) : normT (normT g) = normT g := by
+  cases g <;> simp [normT] <;> (repeat' split) <;> simp_all [normT]
+
+end
+
+/-! ## the property theorems -/
+
+theorem format_parse (cfg : Cfg) (hc : CfgOK cfg) (w : WF) (hr : InRange w) :
+    formatT (parse cfg (render w)) = .ok (render (norm w)) := by
+  cases w with
+  | d f => exact format_parse_D cfg hc f hr
+  | t g => exact format_parse_T cfg hc g
+  | dt f g => exact absurd hr (by simp [InRange])
+  | present => simp [render, norm, parse, parseInto, formatT, formatFuel, infer, bind, Except.bind, pure, Except.pure]
+
+theorem parse_norm (cfg : Cfg) (hc : CfgOK cfg) (w : WF) (hr : InRange w) :
+    parse cfg (render (norm w)) = parse cfg (render w) := by
+  cases w with
+  | d f => rfl
+  | t g => exact parse_normT cfg hc g
+  | dt f g => exact absurd hr (by simp [InRange])
+  | present => rfl
+
+theorem inRange_norm (w : WF) (hr : InRange w) : InRange (norm w) := by
+  cases w with
+  | d f => exact hr
+  | t g => simp [norm, InRange]
+  | dt f g => exact absurd hr (by simp [InRange])
+  | present => exact hr
+
+theorem norm_idem (w : WF) : norm (norm w) = norm w := by
+  cases w <;> simp [norm, normT_idem]
+
+/-- C14 **parse_format_fields** — for every well-formed in-range TIMEX `s = render w`, `Timex(s).timex_value()` is
+a string whose `Timex(…)` has the same field values as `Timex(s)`. -/
+theorem parse_format_fields (cfg : Cfg) (hc : CfgOK cfg) (w : WF) (hr : InRange w) :
+    ∃ v, formatT (parse cfg (render w)) = .ok v ∧ parse cfg v = parse cfg (render w) :=
+  ⟨render (norm w), format_parse cfg hc w hr, parse_norm cfg hc w hr⟩
+
+/-- C14 **format_idempotent** — formatting the re-parsed output gives the same string again. -/
+theorem format_idempotent (cfg : Cfg) (hc : CfgOK cfg) (w : WF) (hr : InRange w) :
+    ∃ v, formatT (parse cfg (render w)) = .ok v ∧ formatT (parse cfg v) = .ok v := by
+  refine ⟨render (norm w), format_parse cfg hc w hr, ?_⟩
+  have := format_parse cfg hc (norm w) (inRange_norm w hr)
+  rwa [norm_idem] at this
+
+/-- canonical strings: the image of `format` on the grammar -/
+def Canonical (s : Str) : Prop := ∃ w, InRange w ∧ s = render (norm w)
+
+/-- C14 **canonical_fixed** — a string already in canonical form comes back identical. -/
+theorem canonical_fixed (cfg : Cfg) (hc : CfgOK cfg) (s : Str) (h : Canonical s) :
+    formatT (parse cfg s) = .ok s := by
+  obtain ⟨w, hr, rfl⟩ := h
+  have := format_parse cfg hc (norm w) (inRange_norm w hr)
+  rwa [norm_idem] at this
+
+/-- the three theorems for the configuration regenerated from the working tree -/
+theorem tree_roundtrip (w : WF) (hr : InRange w) :
+    (∃ v, formatT (parse genCfg (render w)) = .ok v ∧ parse genCfg v = parse genCfg (render w) ∧
+      formatT (parse genCfg v) = .ok v) := by
+  obtain ⟨v, h1, h2⟩ := parse_format_fields genCfg genCfg_ok w hr
+  obtain ⟨v', h1', h3⟩ := format_idempotent genCfg genCfg_ok w hr
+  rw [h1] at h1'; cases h1'
+  exact ⟨v, h1, h2, h3⟩
+
+/-- hypotheses are satisfiable: `2020-02-29`, `XXXX-WXX-3`, `T05:30:00` (canonical form `T05:30`) -/
+example : InRange (.d (.date 2 0 2 0 0 2 2 9)) ∧ InRange (.d (.weekday 3)) ∧ InRange (.t (.hms 0 5 3 0 0 0)) ∧
+    render (norm (.t (.hms 0 5 3 0 0 0))) = [84, 48, 53, 58, 51, 48] := by
+  refine ⟨by simp [InRange], by simp [InRange], by simp [InRange], by decide⟩
+
+/-! ## durations and the recorded / repaired defects -/
+
+/-- integral amounts print as plain digits for every unit field (here days and hours): `Timex(days=Decimal(n))`
+formats to `PnD` -/
+theorem duration_int_format (n : Nat) :
+    formatT { days := some (.dec false n 0) } = .ok (80 :: nstr n ++ [68]) ∧
+    formatT { hours := some (.dec false n 0) } = .ok (80 :: 84 :: nstr n ++ [72]) := by
+  constructor <;>
+    simp [formatT, formatFuel, infer, isDate, isDateRange, isDuration, isTime, isDefinite, truthyO, truthyS,
+      formatDuration, optStr, Num.str, decStr_int, bind, Except.bind, pure, Except.pure]
+
+/-- round trips of duration strings with integer and fractional amounts (`P10D`, `PT1.5H`, `P0.25W`, `P1.50Y`) -/
+theorem duration_examples :
+    ∀ s ∈ ([[80, 49, 48, 68], [80, 84, 49, 46, 53, 72], [80, 48, 46, 50, 53, 87], [80, 49, 46, 53, 48, 89],
+            [80, 51, 54, 77], [80, 84, 57, 48, 77], [80, 84, 52, 53, 83]] : List Str),
+      formatT (parse genCfg s) = .ok s := by
+  decide
+
+/-- regression (was finding `zero-amount-empty`): `P0D` formats to `P0D` (before fix b6d61daf1: `''`);
+regression (was finding `week-of-month-reformat`): `XXXX-05-W02` formats to itself — the text the code printed
+before fix 127911630, `XXXX-05-WXX-2`, is accepted by no pattern (its `Timex` has no field). -/
+theorem repaired_roundtrips :
+    formatT (parse genCfg [80, 48, 68]) = .ok [80, 48, 68] ∧
+    formatT (parse genCfg [88, 88, 88, 88, 45, 48, 53, 45, 87, 48, 50]) = .ok [88, 88, 88, 88, 45, 48, 53, 45, 87, 48, 50] ∧
+    parse genCfg [88, 88, 88, 88, 45, 48, 53, 45, 87, 88, 88, 45, 50] = {} := by
+  decide
+
+/-
+Full statement for durations: ∀ amount of the language `\d*\.?\d+`, parse (format (parse ('P' amount unit))) =
+parse ('P' amount unit).  FALSE in the faithful model for amounts below 10⁻⁶ (`str(Decimal)` switches to
+scientific notation, which `TimexRegex` does not accept) — recorded finding `tiny-amount-scientific`:
+-/
+/-- negative witness (replayed by the check): `P0.0000001D` formats to `P1E-7D`, whose `Timex` has no field. -/
+theorem tiny_amount_not_stable :
+    formatT (parse genCfg [80, 48, 46, 48, 48, 48, 48, 48, 48, 49, 68]) = .ok [80, 49, 69, 45, 55, 68] ∧
+    parse genCfg [80, 49, 69, 45, 55, 68] = {} ∧
+    parse genCfg [80, 48, 46, 48, 48, 48, 48, 48, 48, 49, 68] = { days := some (.dec false 1 (-7)) } := by
+  decide
 
 end RTV.Timex
